@@ -4,10 +4,13 @@ trees created under tempfile.mkdtemp() (removed in a `finally`).
 Scenario lines (in addition to every line of the `tree` model, see harness/models/tree.py):
 
     fs dir :<path> | fs file :<path>          the tree below the temporary root (declared first)
-    pop p<k> nest=<0|1> trim=<0|1>            p<k> = DirectoryResourcePopulator(root, nest, trim)
+    pop p<k> nest=<0|1> trim=<0|1> [root=<spelling>]     p<k> = DirectoryResourcePopulator(root, nest, trim)
+        spellings of the one temporary root T: abs (T), abs_s (T/), abs_dot (T/.), rel (basename, cwd = parent),
+        rel_s (basename/), dot_rel (./basename), rel_dot (basename/.), empty ('' with cwd = T), dot ('.'),
+        dot_s ('./'); the Lean model works on the listing, so the spelling is normalised away there
     rule p<k> :<dir as written> fac=<n> exts=<.a,.b|-> args=<tok>     p<k>.add_rule(dir, F<n>, *args,
                                                                        file_exts=..., **kwargs)
-    op populate p<k> m<j> nest=<0|1|N> trim=<0|1|N> root=<0|1>   p<k>(m<j>, [root,] nest_on_conflict=..,
+    op populate p<k> m<j> nest=<0|1|N> trim=<0|1|N> root=<0|1|spelling>   p<k>(m<j>, [root,] nest_on_conflict=..,
                                               trim_extensions=..)   N: not given (falls back)
     op splitext :<name>                       os.path.splitext(name)
 
@@ -103,7 +106,7 @@ class Run(tree_model.Run):
                 run.made += 1
                 run.hs[k] = self
                 self.loaded = []
-                rel = pt.relpath(filename, run.root)
+                rel = pt.relpath(pt.abspath(filename), run.root)
                 run.obs.append(f'made h{k} fac={fac} path=:{rel} args={enc_args(args, kwargs)}')
 
             def load(self):
@@ -111,6 +114,19 @@ class Run(tree_model.Run):
                 self.loaded.append(v)
                 return v
         return Made
+
+    def spelled(self, spell):
+        """(root string, working directory) for one spelling of the temporary root"""
+        T = self.root
+        parent, base = pt.dirname(T), pt.basename(T)
+        table = {
+            'abs': (T, parent), 'abs_s': (T + '/', parent), 'abs_dot': (T + '/.', parent),
+            'rel': (base, parent), 'rel_s': (base + '/', parent), 'dot_rel': ('./' + base, parent),
+            'rel_dot': (base + '/.', parent), 'empty': ('', T), 'dot': ('.', T), 'dot_s': ('./', T),
+        }
+        if spell not in table:
+            raise tree_model.HarnessError(f'unknown root spelling {spell!r}')
+        return table[spell]
 
     def observe_fs(self, call, p):
         """what os.path / glob say for every rule of populator p, as hint lines"""
@@ -147,12 +163,20 @@ class Run(tree_model.Run):
                 kw['nest_on_conflict'] = bool(int(flags['nest']))
             if flags['trim'] != 'N':
                 kw['trim_extensions'] = bool(int(flags['trim']))
-            if flags['root'] == '1':
-                kw['root'] = self.root
+            spell = p['spell']
+            if flags['root'] != '0':
+                spell = 'abs' if flags['root'] == '1' else flags['root']
+                kw['root'] = self.spelled(spell)[0]
             call = self.calls
             self.calls += 1
             self.observe_fs(call, p)
-            self.guard(lambda: p['obj'](m, **kw))
+            # relative spellings are relative to the working directory at the time of the call
+            old_cwd = os.getcwd()
+            os.chdir(self.spelled(spell)[1])
+            try:
+                self.guard(lambda: p['obj'](m, **kw))
+            finally:
+                os.chdir(old_cwd)
         else:
             super().op(t)
 
@@ -175,9 +199,10 @@ class Run(tree_model.Run):
                         self.files.append(cs)
                 elif t[0] == 'pop':
                     d = dict(x.split('=') for x in t[2:])
+                    spell = d.get('root', 'abs')
                     self.pops[t[1]] = {'obj': DirectoryResourcePopulator(
-                        self.root, nest_on_conflict=bool(int(d['nest'])),
-                        trim_extensions=bool(int(d['trim']))), 'rules': []}
+                        self.spelled(spell)[0], nest_on_conflict=bool(int(d['nest'])),
+                        trim_extensions=bool(int(d['trim']))), 'rules': [], 'spell': spell}
                 elif t[0] == 'rule':
                     d = dict(x.split('=', 1) for x in t[3:])
                     args, kwargs = dec_args(d['args'])
